@@ -33,24 +33,27 @@ mkdir -p "$OUT"; cp "$DIFF" "$OUT/patch.diff"; cp "$DEMO" "$OUT/demo_test.go"
 [ -f "$WT/NOTES.md" ] && cp "$WT/NOTES.md" "$OUT/NOTES.md"
 DET=skipped; LINE=""
 if [ $CONFIRMED = yes ]; then
-  cd /repo && git apply "$DIFF" || { echo "cannot apply to /repo"; exit 2; }
+  # the check runs against a scratch copy of /repo's working tree with the change applied (SIM_REPO),
+  # so /repo itself is never modified and background runs that build from /repo are not disturbed
+  SCR=$(mktemp -d /dev/shm/seedrepo-XXXXXX)
+  rsync -a --exclude .git /repo/ "$SCR"/
+  (cd "$SCR" && git init -q . 2>/dev/null; patch -p1 -s < "$DIFF") || { echo "cannot apply to scratch copy"; rm -rf "$SCR"; exit 2; }
   T0=$(date +%s)
-  python3 $VERIF/sim/vcheck.py check $PROP --no-selftest "$@" >/tmp/seed_check.log 2>&1; RC=$?
+  SIM_REPO="$SCR" SIM_EVIDENCE_DIR="$OUT/evidence" SIM_REPLAY_DIR="$OUT/replays" python3 $VERIF/sim/vcheck.py check $PROP --no-selftest "$@" >/tmp/seed_check_$PROP$M.log 2>&1; RC=$?
   T1=$(date +%s)
-  git -C /repo checkout -q -- .
-  LINE=$(grep -E "^VIOLATION|class=" /tmp/seed_check.log | head -4 | tr '\n' ' ' | cut -c1-600)
-  tail -1 /tmp/seed_check.log
+  rm -rf "$SCR"
+  LINE=$(grep -E "^VIOLATION|class=" /tmp/seed_check_$PROP$M.log | head -4 | tr '\n' ' ' | cut -c1-600)
+  tail -1 /tmp/seed_check_$PROP$M.log
   case $RC in 1) DET=detected;; 0) DET=missed;; *) DET="error($RC)";; esac
   echo "   check exit=$RC => $DET in $((T1-T0))s  $LINE"
   # replay files produced against a seeded tree are not findings of the real tree
-  mkdir -p "$OUT/replays"; mv $VERIF/replays/${PROP}-*.json "$OUT/replays/" 2>/dev/null
 fi
 python3 - "$OUT" "$PROP" "$M" "$CONFIRMED" "$BUILD" "$TESTS" "$WITH" "$WITHOUT" "$DET" "$LINE" "$TESTNAME" "$*" <<'EOF'
 import json,sys,os
 out,prop,m,conf,build,tests,w,wo,det,line,tn,extra=sys.argv[1:13]
 meta={"property":prop,"mutation":m,"confirmed":conf=="yes","compiles":build=="ok","existing_tests_pass":tests=="ok",
  "demo_test":tn,"demo_fails_with_change":w=="fail","demo_passes_without":wo=="pass",
- "ran":"git -C /repo apply patch.diff; python3 sim/vcheck.py check %s --no-selftest %s; git -C /repo checkout -- ."%(prop,extra),
+ "ran":"scratch copy of /repo with patch.diff applied; SIM_REPO=<copy> python3 sim/vcheck.py check %s --no-selftest %s"%(prop,extra),
  "check_result":det,"first_violation":line}
 n=os.path.join(out,"NOTES.md")
 if os.path.exists(n):
